@@ -41,6 +41,7 @@ def detour(r, path):
         k = r.random()
         if k < 0.2: out.append(b'.')
         elif k < 0.3: out += [b'zz', b'..']
+        elif k < 0.38: out += [r.choice([b'%2E%2E', b'%2e', b'.%2e', b'%2e%2E']), b'..']     # a percent-encoded dot segment is an ordinary segment: the '..' removes it
         out.append(s)
     return ('/' if ab else '') + b'/'.join(out).decode('utf-8')
 
@@ -90,7 +91,7 @@ def ref_pairs(g, n):
     for _ in range(n):
         p = g.parts()
         if g.r.random() < 0.5:
-            p['path'] = ('/' if p['authority'] is not None or g.r.random() < 0.6 else '') + '/'.join(g.pick(['a', 'b', '', '.', '..', '%61', 'b:c', '%2F', '%FF', '%C3%A9', '%c0%af']) for _ in range(g.pick([0, 1, 2, 3, 4])))
+            p['path'] = ('/' if p['authority'] is not None or g.r.random() < 0.6 else '') + '/'.join(g.pick(['a', 'b', '', '.', '..', '%61', 'b:c', '%2F', '%FF', '%C3%A9', '%c0%af', '%2E%2E', '%2e']) for _ in range(g.pick([0, 1, 2, 3, 4])))
             if p['authority'] is None and p['path'].startswith('//'): p['path'] = '/a' + p['path'][1:]
             if p['authority'] is None and p['scheme'] is None and ':' in p['path'].split('/')[0]: p['path'] = './' + p['path']
         if p['authority'] is None and g.r.random() < 0.08:     # relative paths that keep several leading '..'
